@@ -69,6 +69,7 @@ def one(sc):
 
 
 def run(v, tier):
+    vf.build_atlas()      # the CLI under test is rebuilt from /repo's working tree
     nmax = 4 if tier == "quick" else 5
     scs = []
     for n in range(1, nmax + 1):
